@@ -1,2 +1,10 @@
 from ._meta import M
 META = M["C03"]
+
+
+
+def lemmas(E, REG):
+    # which field follows the unit (value or description) is decided by an order table on both sides: the writer's choice for a
+    # mnemonic and the reader's choice for the (case-mapped) mnemonic it reads back must agree, or value and description swap
+    from . import C12
+    return C12.order_lemmas(E, "C03")
